@@ -11,7 +11,7 @@ EXTENDS DvidKV, Json
 TraceLog == ndJsonDeserialize("kv_trace.ndjson")
 
 VARIABLE l
-tvars == <<nn, par, kids, br, lk, kind, rp, uid, head, last, ent, l>>
+tvars == <<nn, par, kids, br, lk, kind, rp, uid, head, dead, last, ent, l>>
 
 TInit == KVInit /\ l = 1
 IsEvent(e) == l <= Len(TraceLog) /\ TraceLog[l].ev = e /\ l' = l + 1
@@ -32,7 +32,7 @@ TGet == IsEvent("get") /\ (Get(T.node, T.key, T.res) \/ Dev_InnerMergeConflict(T
 TRestart == IsEvent("restart") /\ UNCHANGED <<dagvars, ent, last>>
 \* several traces are validated in one run
 TReset == IsEvent("reset") /\ nn' = 0 /\ par' = <<>> /\ kids' = <<>> /\ br' = <<>> /\ lk' = <<>> /\ kind' = <<>>
-          /\ rp' = <<>> /\ uid' = <<>> /\ head' = <<>> /\ last' = [op |-> "init", ok |-> TRUE]
+          /\ rp' = <<>> /\ uid' = <<>> /\ head' = <<>> /\ dead' = {} /\ last' = [op |-> "init", ok |-> TRUE]
           /\ ent' = [k \in Keys |-> <<>>]
 
 TNext == TNewRepo \/ TCommit \/ TNewVersion \/ TBranch \/ TMerge \/ TPut \/ TDel \/ TGet \/ TRestart \/ TReset
